@@ -866,6 +866,8 @@ void BW_MidiSequencer::buildTimeLine(const std::vector<MidiEvent> &tempos,
                                           uint64_t loopEndTicks)
 {
     const size_t    trackCount = m_trackData.size();
+    // Every pass from the begin of the song starts with this tempo again
+    m_tempoBegin = m_tempo;
     /********************************************************************************/
     // Calculate time basing on collected tempo events
     /********************************************************************************/
@@ -2249,6 +2251,7 @@ void BW_MidiSequencer::rewind()
 {
     m_currentPosition   = m_trackBeginPosition;
     m_atEnd             = false;
+    m_tempo             = m_tempoBegin;
 
     m_loop.loopsCount = m_loopCount;
     m_loop.reset();
